@@ -360,6 +360,60 @@ DETAIL["c02_tags_specials"] = lambda ti, mode: {"template": TAGS[_TAG_KEYS[ti]],
                                                 "escaping": [(srepr(special(a)), srepr(special(b)), n) for a, b, n in _tag_sweep(_TAG_KEYS[ti], _mode(mode))[:4]]}
 CONDITIONS.append({"fn": "c02_tags_specials", "quick": 150, "thorough": 300, "sel_only": True})
 
+# ---- a render-time or parse-time error on line k of a multi-line source, for every kind of line break: whatever builds the
+# message (WARN mode formats it itself) must not raise anything else, and str() of a raised LiquidError must work ------------
+_EOLS = [chr(10), chr(13) + chr(10), chr(13), chr(0x2028), chr(11), chr(12), chr(0x85), chr(10) + chr(13)]
+_ERR_LINES = ["{{ x | divided_by: 0 }}", "{{ nosuch | nosuchfilter }}", "{% if %}x{% endif %}", "{% for i in %}{% endfor %}", "{{ x | plus }}",
+              "{% include 'nosuch' %}", "{% assign %}", "  {{ 'a' | slice: 'z' }}", "{{x|f}}", "{%a%}"]
+_ML_T = {}
+
+
+_BEFORE = (0, 1, 2, 5, 12, 40, 200)
+
+
+def multiline_source(bi, ei, eol, trailing):
+    return ("ab" + _EOLS[eol]) * _BEFORE[bi] + _ERR_LINES[ei] + (_EOLS[eol] if trailing else "")
+
+
+def multiline_case(bi, ei, eol, trailing, mode):
+    import warnings
+    m = _mode(mode)
+    src = multiline_source(bi, ei, eol, trailing)
+    try:
+        with warnings.catch_warnings():
+            warnings.simplefilter("ignore")
+            t = ENVS[m].from_string(src)
+            t.render(x=1)
+    except LiquidError as e:
+        try:
+            str(e)
+            e.detailed_message()
+        except Exception as e2:
+            return "str(error) raised " + type(e2).__name__
+        return "liquid"
+    except Exception as e:
+        return type(e).__name__
+    return "ok"
+
+
+def c02_error_on_line(before: int, ei: int, eol: int, trailing: bool, mode: int) -> bool:
+    """
+    pre: 0 <= before <= 6 and 0 <= ei <= 9 and 0 <= eol <= 7 and 0 <= mode <= 2
+    post: _
+    """
+    if excluded("c02_error_on_line", locals()):
+        return True
+    before, ei, eol, mode = cint(before, 0, 6), cint(ei, 0, 9), cint(eol, 0, 7), cint(mode, 0, 2)
+    trailing = True if trailing else False
+    r = untraced(lambda: multiline_case(before, ei, eol, trailing, mode))
+    return finish(r == "ok" or r == "liquid")
+
+
+DETAIL["c02_error_on_line"] = lambda before, ei, eol, trailing, mode: {
+    "lines before": _BEFORE[before], "error line": _ERR_LINES[ei], "line break": repr(_EOLS[eol]), "trailing line break": trailing, "mode": str(_mode(mode)),
+    "outcome": multiline_case(before, ei, eol, trailing, mode)}
+CONDITIONS.append({"fn": "c02_error_on_line", "quick": 90, "thorough": 200, "sel_only": True})
+
 # ---- kernels -------------------------------------------------------------------------------------------------------
 from liquid.filter import decimal_arg, int_arg, num_arg  # noqa: E402
 from liquid.limits import to_int  # noqa: E402
